@@ -213,12 +213,12 @@ func mapExhaustive(w *vhlib.Writer, k mapKind, keyFn func(OMap) string, U int, m
 		cfg := cmpCfgs[stateNo%len(cmpCfgs)]
 		stateNo++
 		probes := make([]int, 0, 2*U+1)
-		for p := 1; p <= 2*U+1; p++ {
+		for p := -1; p <= 2*U-1; p++ { // universe keys 0, 2, .., 2U-2 (0 = the zero key), gaps and both ends
 			probes = append(probes, p*cfg.spread)
 		}
 		for kk := 1; kk <= U; kk++ {
 			for _, kind := range []int{0, 1} {
-				o := mop{kind, 2 * kk, 100*(len(s.path)+1) + 2*kk}
+				o := mop{kind, 2 * (kk - 1), 100*(len(s.path)+1) + 2*kk}
 				x := &mapRun{k: k, m: k.mk(cfg.f), r: &rec{}}
 				for _, po := range spreadOps(s.path, cfg, false) {
 					x.apply(po)
@@ -385,7 +385,29 @@ func setCase(w *vhlib.Writer, safe bool, prof string, rng *vhlib.Rng, n int, mal
 }
 
 // ---------------- tree bidi map ----------------
-func bidiCase(w *vhlib.Writer, safe bool, prof string, rng *vhlib.Rng, n int, exhaustivePath []mop, fixed *cmpCfg) {
+// every key (value) present, the zero key (value), and a few neighbours
+func bidiProbes(rng *vhlib.Rng, sorted []int) []int {
+	seen := map[int]bool{}
+	var ps []int
+	add := func(p int) {
+		if !seen[p] {
+			seen[p] = true
+			ps = append(ps, p)
+		}
+	}
+	add(0)
+	for i, k := range sorted {
+		if i < 24 {
+			add(k)
+		}
+	}
+	for _, p := range probesFor(rng, sorted, 6) {
+		add(p)
+	}
+	return ps
+}
+
+func bidiCase(w *vhlib.Writer, safe bool, prof string, rng *vhlib.Rng, n int, exhaustivePath []mop, fixed *cmpCfg, batteryFrom int) {
 	label := "treebidimap"
 	if safe {
 		label = "treebidimap-safe"
@@ -396,12 +418,29 @@ func bidiCase(w *vhlib.Writer, safe bool, prof string, rng *vhlib.Rng, n int, ex
 	if exhaustivePath != nil {
 		ops = exhaustivePath
 	} else {
-		ops = profile(prof, rng, n)
-		// values from a small universe so that Put hits every overwrite pattern (same key, same value, both)
+		base := profile(prof, rng, n)
+		// values from a small universe 0..u-1 so that Put hits every overwrite pattern (same key, same value, both);
+		// value 0 (the Go zero value, what Get returns for an absent key) is bound often and stays 0 under every
+		// spread. Repetition / absent-key patterns are woven in: double Remove, Remove of a key that was never put,
+		// the identical Put twice, re-binding a key from and to the zero value.
 		u := n/6 + 2
-		for i := range ops {
-			if ops[i].kind == 0 && prof != "extreme-ints" {
-				ops[i].v = 500 + rng.Intn(u)
+		for _, o := range base {
+			if o.kind == 0 && prof != "extreme-ints" {
+				o.v = rng.Intn(u)
+				if rng.Chance(1, 4) {
+					o.v = 0
+				}
+			}
+			ops = append(ops, o)
+			switch {
+			case o.kind == 1 && rng.Chance(1, 3):
+				ops = append(ops, o) // the same Remove again
+			case o.kind == 1 && rng.Chance(1, 4):
+				ops = append(ops, mop{1, o.k + 7777, 0}) // never put
+			case o.kind == 0 && rng.Chance(1, 5):
+				ops = append(ops, o) // the identical pair again
+			case o.kind == 0 && prof != "extreme-ints" && rng.Chance(1, 5):
+				ops = append(ops, mop{0, o.k, 0}, mop{0, o.k, 1 + rng.Intn(u)}) // to the zero value and away from it
 			}
 		}
 	}
@@ -424,8 +463,8 @@ func bidiCase(w *vhlib.Writer, safe bool, prof string, rng *vhlib.Rng, n int, ex
 		sort.Ints(sk)
 		sv := append([]int{}, vs...)
 		sort.Ints(sv)
-		pk := probesFor(rng, sk, 12)
-		pv := probesFor(rng, sv, 12)
+		pk := bidiProbes(rng, sk)
+		pv := bidiProbes(rng, sv)
 		r.try("GB BSize", "Get", func() string {
 			ov := make([]int, len(pk))
 			of := make([]bool, len(pk))
@@ -463,7 +502,8 @@ func bidiCase(w *vhlib.Writer, safe bool, prof string, rng *vhlib.Rng, n int, ex
 			r.try("GB BEmpty", "Empty", func() string { return fmt.Sprintf("C1 (GB BEmpty) (RB (BOBool %s))", vhlib.Bool(b.Empty())) })
 			r.try("GB BKeys", "len(Keys)", func() string { return "CKeysLen " + zi(len(b.Keys())) })
 		}
-		if (i+1)%every == 0 || i == len(ops)-1 {
+		// both directions after every operation (short sequences and the tail of exhaustive words), else at checkpoints
+		if len(ops) <= 120 && exhaustivePath == nil || exhaustivePath != nil && i >= batteryFrom || (i+1)%every == 0 || i == len(ops)-1 {
 			battery()
 		}
 		if r.dead {
@@ -474,7 +514,9 @@ func bidiCase(w *vhlib.Writer, safe bool, prof string, rng *vhlib.Rng, n int, ex
 	emitCase(w, "KBidi", cfg, lab, r, len(ops) >= 2)
 }
 
-// all Put words of a given length over keys {1..u} x values {1..u}, each followed by a Remove of every key
+// all Put words of a given length over keys {0..u-1} x values {0..u-1} (0 = the Go zero value on both sides, under
+// every spread), each followed by one of: Remove of key i in 0..u (u is never present), the same Remove twice,
+// the last Put repeated; full battery in both directions after the last Put and after every suffix operation
 func bidiExhaustive(w *vhlib.Writer, safe bool, rng *vhlib.Rng, u, length int) {
 	n := u * u
 	total := 1
@@ -487,11 +529,19 @@ func bidiExhaustive(w *vhlib.Writer, safe bool, rng *vhlib.Rng, u, length int) {
 		for i := 0; i < length; i++ {
 			c := x % n
 			x /= n
-			path = append(path, mop{0, 1 + c/u, 501 + c%u})
+			path = append(path, mop{0, c / u, c % u})
 		}
-		path = append(path, mop{1, 1 + word%u, 0})
+		switch sfx := (word / 7) % (u + 3); {
+		case sfx <= u:
+			path = append(path, mop{1, sfx, 0})
+		case sfx == u+1:
+			k := word % (u + 1)
+			path = append(path, mop{1, k, 0}, mop{1, k, 0})
+		default:
+			path = append(path, path[length-1], mop{1, u, 0})
+		}
 		cfg := cmpCfgs[word%len(cmpCfgs)]
-		bidiCase(w, safe, "exhaustive", rng, 0, path, &cfg)
+		bidiCase(w, safe, "exhaustive", rng, 0, path, &cfg, length-1)
 	}
 }
 
@@ -580,7 +630,7 @@ func runC01(o vhlib.Opts) {
 		for _, prof := range profileNames {
 			for rep := 0; rep < reps; rep++ {
 				setCase(w, safe, prof, seedFor("treeset", prof, rep), n, false)
-				bidiCase(w, safe, prof, seedFor("treebidimap", prof, rep), n, nil, nil)
+				bidiCase(w, safe, prof, seedFor("treebidimap", prof, rep), n, nil, nil, 0)
 			}
 		}
 		for rep := 0; rep < 4*reps; rep++ {
